@@ -1374,8 +1374,13 @@ class Store:
         for daughter, daughter_state in \
                 zip(daughters, daughter_states):
             # use initial state as default, merge in divided values
+            explicit_state = daughter.get('initial_state', {})
+            if explicit_state:
+                # the dividers may hand both daughters the same
+                # dictionaries: an override is this daughter's alone
+                daughter_state = deep_copy_internal(daughter_state)
             merged_initial_state = deep_merge(
-                daughter_state, daughter.get('initial_state', {}))
+                daughter_state, explicit_state)
 
             daughter_key = daughter['key']
             daughter_path = (daughter_key,)
